@@ -294,6 +294,48 @@ def independence(G, ctx):
         ctx.count("independence")
 
 
+def opaque_wrapped(G, ctx):
+    """a site wrapped in a higher-order primitive the modular_vmap interpreter does not interpret (jax.checkpoint, custom_jvp,
+    custom_vjp; at top level, in a scan step, in a cond branch): the interpreter may refuse (it raises the site's lowering error),
+    it may never re-bind the equation unchanged, which shares ONE draw between all lanes.  Called eagerly (no seed: seed has the same
+    hole, which C14 covers, and would mask this one) and under seed."""
+    import jax
+    import jax.numpy as jnp
+    import jax.random as jr
+    import lowering
+    normal = G.normal
+
+    def site(x):
+        return normal.sample(x * 0.0, 1.0)
+
+    for cname in ("checkpoint", "custom_jvp", "custom_vjp"):
+        w = lowering.wrap(G, cname, site)
+        progs = {
+            "top": lambda x: w(jnp.float32(0.0)) + 0.0 * x,
+            "in-scan": lambda x: jax.lax.scan(lambda c, t: (c, w(c)), jnp.float32(0.0), jnp.arange(2))[1][0] + 0.0 * x,
+            "in-cond": lambda x: jax.lax.cond(x > -1.0, lambda: w(jnp.float32(0.0)), lambda: jnp.float32(0.0)) + 0.0 * x,
+            "batched-arg": lambda x: w(x),
+        }
+        for pname, f in progs.items():
+            for seeded in (False, True):
+                name = f"{'seed∘' if seeded else ''}modular_vmap({pname}: {cname}(site))"
+                case = {"kind": "opaque-wrapped", "construct": cname, "program": pname, "seeded": seeded}
+                mv = G.modular_vmap(f, in_axes=(0,))
+                try:
+                    out = np.asarray(G.seed(mv)(jr.key(5), jnp.zeros(4)) if seeded else mv(jnp.zeros(4))).reshape(-1)
+                except Exception as ex:
+                    impl.reset_handlers()
+                    case["outcome"] = "raises " + type(ex).__name__
+                    ctx.count("opaque-wrapped:raises")
+                else:
+                    case["outcome"] = out.tolist()
+                    if len(set(out.tolist())) != out.size:
+                        ctx.property_failure(None, f"{name}: the lanes hold {out.tolist()} - one draw was broadcast to all lanes instead of one "
+                                             "independent draw per lane (the interpreter re-bound the wrapping equation unchanged)", case)
+                    ctx.count("opaque-wrapped:independent")
+                ctx.case(sample=case if (pname, seeded) == ("top", False) else None, nontrivial_key=("opaque", cname, pname, seeded))
+
+
 def combinator(G, ctx):
     """Vmap / repeat: lane i is a coherent callee trace on lane i's args; density, weights, retvals are per-lane sums / stacks"""
     import jax
@@ -792,6 +834,7 @@ def run(ctx, audit):
         for args, ia, asz in cases:
             check_function(G, ctx, name, f, args, ia, asz)
     independence(G, ctx)
+    opaque_wrapped(G, ctx)
     event_shaped_families(G, ctx)
     combinator(G, ctx)
     layout_model(G, ctx)
